@@ -31,7 +31,9 @@ def cases(tier, seed):
                # widths whose reciprocal is not exact in binary floating point, lengths that are multiples of them
                ([490, 343], 49), ([980, 99], 98), ([1030, 515], 103), ([749], 107), ([1127, 161], 161), ([935], 187)]
     for k, (lens, b) in enumerate(combos):
-        yield "ext.binnify", {"lens": lens, "b": b, "relbase": k % 2, "header": k % 3 == 0}
+        F = gen.feat(7, k)
+        yield "ext.binnify", {"lens": lens, "b": b, "relbase": F("relbase", 2), "header": F("header", 3) == 0,
+                              "out": ["stdout", "fresh", "existing"][F("out", 3)]}
     # inference on every valid table
     if tier == "quick":
         tables = list(gen.all_tables(2, 4)) + rng.sample(list(gen.all_tables(2, 5)), 150)
